@@ -293,6 +293,9 @@ def run(ctx):
         spec = J.make_spec(K, rng, "general", ["A128KW", a], "A128GCM", plaintext=b"never sent")
         refused(spec, "1pu-kw:second-recipient:%s" % a, "InvalidEncryptionAlgorithmError")
 
+    # operation sequences on message objects: one object encrypted several times with header edits in between
+    J.sequence_checks(ctx, K, rng, cases, meta, bump, pid="C04")
+
     # an RSA key below 2048 bits is refused at encryption time (RFC 7518 4.2 / 4.3)
     try:
         from cryptography.hazmat.primitives.asymmetric import rsa as _rsa
